@@ -31,6 +31,7 @@ func genDirective(w *out.W, tier string) {
 	sets := []optSet{drv[0], drv[1]} // generic, mysql (hash comments)
 	names := []string{"nolint", "txmode"}
 	n := 0
+	before := 0
 	one := func(in string) {
 		for _, os := range sets {
 			for _, name := range names {
@@ -42,6 +43,10 @@ func genDirective(w *out.W, tier string) {
 				if nt {
 					w.NonTrivial(os.name + "\x00" + name + "\x00" + in)
 				}
+				if fileAndStmt > before {
+					w.Count("obs/header-block-is-file-directive-and-first-statement-directive (not judged)")
+				}
+				before = fileAndStmt
 				for _, v := range viol {
 					w.Violation(id, "directive", fmt.Sprintf("opts=%s name=%s input=%q: %s", os.name, name, in, v))
 				}
